@@ -217,13 +217,26 @@ class StoreWorld(object):
         self.pool = plan['pool']
         self.cfg = plan['config']
         self.disk = world.disk
+        # granularity of the simulated filesystem's time stamps (see SimDisk.touch): part of the plan
+        self.disk.mtime_gran = self.cfg.get('mtime_gran', 1)
+        if self.disk.mtime_gran != 1:
+            world.probe('coarse_file_timestamps')
         self.fsdir = os.path.join(self.disk.root, 'fs')
         os.mkdir(self.fsdir)
         self.savedir = os.path.join(self.disk.root, 'save')
         os.mkdir(self.savedir)
         self.models = {'M': {}, 'F': {}}
         self.torn = False
+        if self.cfg.get('early_parse'):
+            # history: content of the custom type passes through the parser BEFORE the type is registered (it comes back as
+            # a dictionary then, as documented); what is stored after the registration must not be affected by that
+            for extra in ({'spec_version': '2.1'}, {}):
+                call(self.stix2.parse, dict({'type': 'x-sim-widget', 'id': 'x-sim-widget--' + C.mkuuid(991, 'early'), 'name': 'early',
+                                             'created': '2017-01-01T00:00:00.000Z', 'modified': '2017-01-01T00:00:00.000Z'}, **extra),
+                     allow_custom=True)
+            world.probe('type_parsed_before_registration')
         self.register_customs()
+        self.registered_names = ({'x-sim-widget', 'marking-definition'} | set(C.SDO20) | set(C.SRO20) | set(C.SDO21) | set(C.SRO21) | set(C.SCO21))
         self.M = self.F = None
         self.make_memory()
         self.make_fs()
@@ -289,6 +302,10 @@ class StoreWorld(object):
     def observe(self, objs):
         out = []
         for o in objs:
+            if type(o) is dict and o.get('type') in self.registered_names:
+                # stores parse what they are given / read: a plain dictionary comes back only for types without a registered class
+                raise Violation('class-of-returned-object', '%s.returned-plain-dict-for-registered-type' % self.pid,
+                                dict(type=o.get('type'), id=o.get('id')))
             j = U.to_json(o, defaults=False)
             out.append((obj_key(o), norm(j), j))
         return out
